@@ -404,7 +404,19 @@ func runParamsCase(ta *TestApp, seed uint64, idx int, rep *Report, profile strin
 					nc.minters[i].seq = mstate.SequenceId + uint32(i)
 				}
 				i := rng.Intn(len(nc.minters))
-				switch rng.Intn(5) {
+				sel := rng.Intn(8)
+				if sel >= 5 && len(nc.minters) >= 3 {
+					// an otherwise valid schedule in which a period ends centuries before the one in front of it (further apart than
+					// an int64 of nanoseconds holds)
+					j := len(nc.minters) - 2 // the last period that has an end: nothing after it is compared with it
+					if nc.minters[j-1].end != nil && nc.minters[j].end != nil && nc.minters[j+1].end == nil {
+						e := nc.minters[j-1].end.AddDate(-(293 + rng.Intn(40)), 0, 0) // (stays inside what UnixNano can express)
+						nc.minters[j].end = &e
+						rep.Count("minter_candidate.period_ends_centuries_before_the_previous_one")
+					}
+				}
+				switch sel {
+				case 5, 6, 7:
 				case 0: // exponential steps of length zero
 					nc.minters[i].kind, nc.minters[i].amt, nc.minters[i].step, nc.minters[i].mult = 2, bi(1+rng.I64n(1000)), 0, sdk.NewDecWithPrec(5, 1)
 				case 1: // ... of negative length
@@ -510,6 +522,20 @@ func runParamsCase(ta *TestApp, seed uint64, idx int, rep *Report, profile strin
 					okCfg, badCfg = false, fmt.Sprintf("period %d: exponential amount %v multiplier %v step %v", m.SequenceId, c.Amount, c.AmountMultiplier, c.StepDuration)
 				}
 			}
+		}
+		// ... and the timeline: every period but the last has an end, the ends increase strictly from the start time on
+		prevEnd := afterM.StartTime
+		for i, m := range afterM.Minters {
+			if m.EndTime == nil {
+				if i != len(afterM.Minters)-1 {
+					okCfg, badCfg = false, fmt.Sprintf("period %d has no end but is not the last", m.SequenceId)
+				}
+				continue
+			}
+			if !m.EndTime.After(prevEnd) {
+				okCfg, badCfg = false, fmt.Sprintf("period %d ends at %s, not after %s", m.SequenceId, m.EndTime.UTC(), prevEnd.UTC())
+			}
+			prevEnd = *m.EndTime
 		}
 		rep.Eval("C13.stored_minter_periods_obey_the_configuration_rules", okCfg, idx, s, term+": "+badCfg)
 		rep.Eval("C13.vesting_denom_fixed_while_pools_exist", !poolsExist || afterV.Denom == beforeV.Denom, idx, s, term)
